@@ -76,7 +76,9 @@ ConnRec(o) ==
      tree      |-> [p \in 1 .. np |-> IsTree(g, VSet(g.n, p - 1))]]
 
 (* C08 *)
-NotSegObjs == SmallGraphs(IF Quick THEN 4 ELSE 5) \o Catalogue \o
+LoopObjs == << GraphObj("loop", G(1, <<<<0, 0>>>>)), GraphObj("path3+loop", G(3, <<<<0, 1>>, <<1, 1>>, <<1, 2>>>>)),
+              GraphObj("path4+end-loop", G(4, <<<<0, 1>>, <<1, 2>>, <<2, 3>>, <<3, 3>>>>)) >>      \* an active vertex with a loop is adjacent to itself
+NotSegObjs == SmallGraphs(IF Quick THEN 4 ELSE 5) \o Catalogue \o LoopObjs \o
               Grids(IF Quick THEN {<<1, 1>>, <<1, 2>>, <<2, 2>>, <<1, 3>>, <<3, 1>>, <<2, 3>>, <<3, 2>>, <<3, 3>>, <<1, 5>>}
                     ELSE {<<1, 1>>, <<1, 2>>, <<2, 1>>, <<2, 2>>, <<1, 3>>, <<3, 1>>, <<2, 3>>, <<3, 2>>, <<3, 3>>,
                           <<1, 4>>, <<4, 1>>, <<1, 5>>, <<5, 1>>, <<2, 4>>, <<2, 5>>, <<3, 4>>, <<4, 3>>, <<4, 4>>})
